@@ -367,15 +367,16 @@ def hist_case(draw):
     if spec["sshape"][0] % 2 and spec["sshape"][0] > 1 and draw(st.booleans()):
         spec["sshape"][0] -= 1  # even channel counts: alignment matters (one channel fewer keeps the band positive)
     dmv, sel = draw(dm_and_ref(spec))
-    steps = [draw(st.sampled_from(["align", "align", "dm", "ref", "data", "cf_shift", "same", "dtype", "start"])) for _ in range(draw(st.integers(1, 4)))]
-    return {"sig": spec, "dm": dmv, "ref": sel, "steps": steps, "pick": draw(st.integers(0, 10**6))}
+    steps = [draw(st.sampled_from(["align", "align", "dm", "ref", "data", "cf_shift", "same", "dtype", "start", "rate"])) for _ in range(draw(st.integers(1, 4)))]
+    return {"sig": spec, "dm": dmv, "ref": sel, "steps": steps, "pick": draw(st.integers(0, 10**6)), "one_object": draw(st.booleans())}
 
 
 def run_hist(case, stt):
     import copy
 
     cur = {"sig": copy.deepcopy(case["sig"]), "dm": case["dm"], "ref": case["ref"]}
-    run_cdd(cur, stt)
+    one = G.OneObject(case.get("one_object", False), cur["sig"])
+    one.run(run_cdd, cur, stt)
     k = case["pick"]
     for i, step in enumerate(case["steps"]):
         cur = copy.deepcopy(cur)
@@ -397,8 +398,15 @@ def run_hist(case, stt):
             sg["dtype"] = "c16" if sg["dtype"] == "c8" else "c8"
         elif step == "start":
             sg["t0"] = None if sg["t0"] else {"mjd": 58000 + (k % 100), "frac": 0.25}
-        run_cdd(cur, stt)
+        elif step == "rate":
+            # the same band sampled at another rate would not be a baseband signal of the same channels: scale band and rate together
+            f = [2.0, 0.5][(k + i) % 2]
+            sg["sr"] = dict(sg["sr"], v=sg["sr"]["v"] * f)
+            sg["cf"] = dict(sg["cf"], v=sg["cf"]["v"] * f)
+            cur["dm"] = cap_dm(sg, cur["dm"], cur["ref"])
+        one.run(run_cdd, cur, stt)
         stt.label("hist_" + step)
+    stt.label("one_object_reassigned" if one.reused > 1 else "fresh_objects")
     stt.nt("align" in case["steps"] and case["sig"]["sshape"][0] % 2 == 0)
 
 
